@@ -1,12 +1,14 @@
 package props
 
 import (
+	stdjson "encoding/json"
 	"fmt"
 	"math/rand"
 	"reflect"
 	"sort"
 	"strings"
 	"unsafe"
+	"verif/harness/zoo"
 
 	gojson "github.com/goccy/go-json"
 
@@ -200,6 +202,64 @@ func c14HeapWindow(c *rt.Ctx) {
 	c.Sample(map[string]any{"family": "heap descriptors aliasing the cache window", "created": 2 * made, "low_bits_in_window": len(win)})
 }
 
+// c14RecursivePairs: several distinct recursive struct types whose first members have the same Go
+// type, linked into one compiled program (one root reaches them all). Each type has its own member
+// names, so output produced by another type's sub-program is recognisable; encoding/json is the
+// reference.
+func c14RecursivePairs(c *rt.Ctx) {
+	d1 := &zoo.RecDag{ID: 1, Next: &zoo.RecDag{ID: 2, Tail: &zoo.RecDag{ID: 3}}}
+	d2 := &zoo.RecDag2{ID: 4, Title: "t4", Next: &zoo.RecDag2{ID: 5, Title: "t5", Next: &zoo.RecDag2{ID: 6, Title: "t6"}}}
+	d3 := &zoo.RecDag3{ID: 7, Flag: true, Kids: []zoo.RecDag3{{ID: 8, Up: &zoo.RecDag3{ID: 9, Flag: true}}, {ID: 10}}}
+	vals := []any{zoo.RecRootAB{A: d1, B: d2, C: d3}, &zoo.RecRootAB{A: d1, B: d2, C: d3}, zoo.RecRootBA{C: []zoo.RecDag3{*d3, {ID: 11}}, B: map[string]*zoo.RecDag2{"k": d2}, A: *d1},
+		[]any{d2, d1, d3}, []any{d3, d2, d1}, map[string]any{"x": zoo.RecRootBA{A: *d1, B: map[string]*zoo.RecDag2{"k": d2}}, "y": d3},
+		struct {
+			P *zoo.RecDag2
+			Q *zoo.RecDag
+			R []*zoo.RecDag3
+		}{d2, d1, []*zoo.RecDag3{d3, d3}}}
+	for i, x := range vals {
+		if !c.Cur(200000+i, fmt.Sprintf("shapes=core\nrecursive types with equal first members: %T", x)) {
+			continue
+		}
+		for _, how := range []string{"Marshal", "MarshalIndent"} {
+			var got, want []byte
+			var gerr, serr error
+			pan, msg, _ := rt.Guard(func() {
+				if how == "Marshal" {
+					got, gerr = gojson.Marshal(x)
+				} else {
+					got, gerr = gojson.MarshalIndent(x, "", " ")
+				}
+			})
+			if how == "Marshal" {
+				want, serr = stdjson.Marshal(x)
+			} else {
+				want, serr = stdjson.MarshalIndent(x, "", " ")
+			}
+			c.Eval(1)
+			if serr != nil {
+				continue
+			}
+			if pan || gerr != nil || string(got) != string(want) {
+				c.Violate(rt.Violation{Monitor: "self-ident", Entry: "recursive-pair", Kind: "encoded-by-foreign-program", Ctx: how,
+					Detail: fmt.Sprintf("%T: got %s (err %v %s) want %s", x, got, gerr, msg, want), Sub: 200000 + i})
+			}
+		}
+		c.NonTrivial("recursive-pair", fmt.Sprintf("%T", x))
+	}
+	// decode side: one destination type holding all of them
+	doc, _ := stdjson.Marshal(vals[0])
+	var back, sback zoo.RecRootAB
+	var derr error
+	pan, msg, _ := rt.Guard(func() { derr = gojson.Unmarshal(doc, &back) })
+	stdjson.Unmarshal(doc, &sback)
+	c.Eval(1)
+	if pan || derr != nil || !reflect.DeepEqual(back, sback) {
+		gb, _ := stdjson.Marshal(back)
+		c.Violate(rt.Violation{Monitor: "self-ident", Entry: "recursive-pair", Kind: "decoded-by-foreign-program", Ctx: "Unmarshal", Detail: fmt.Sprintf("%s decoded as %s (err %v %s)", doc, gb, derr, msg), Sub: 200100})
+	}
+}
+
 func c14Drain(c *rt.Ctx, sub int) {
 	es, er := gojson.VerifEncCacheTake()
 	ds, dr := gojson.VerifDecCacheTake()
@@ -244,6 +304,7 @@ func init() {
 		Run: func(c *rt.Ctx) {
 			if c.Idx == 0 {
 				// first in its (fresh) worker process
+				c14RecursivePairs(c)
 				c14HeapWindow(c)
 				return
 			}
